@@ -43,7 +43,30 @@ fn main() {
                     continue;
                 }
                 let v: Value = serde_json::from_str(&line).expect("bad scenario json");
+                // per-scenario watchdog: a scenario that does not end is reported and ends the process
+                // (exit code 98) instead of consuming the supervisor's whole batch budget
+                let done = std::sync::Arc::new(std::sync::atomic::AtomicBool::new(false));
+                if let Some(limit) = std::env::var("VERIF_SCN_TIMEOUT")
+                    .ok()
+                    .and_then(|s| s.parse::<u64>().ok())
+                {
+                    let done = std::sync::Arc::clone(&done);
+                    std::thread::spawn(move || {
+                        let t0 = std::time::Instant::now();
+                        while t0.elapsed().as_secs() < limit {
+                            if done.load(std::sync::atomic::Ordering::Relaxed) {
+                                return;
+                            }
+                            std::thread::sleep(std::time::Duration::from_millis(50));
+                        }
+                        if !done.load(std::sync::atomic::Ordering::Relaxed) {
+                            out::emit(serde_json::json!({"ev":"Watchdog","limit_s":limit}));
+                            std::process::exit(98);
+                        }
+                    });
+                }
                 run_one(v);
+                done.store(true, std::sync::atomic::Ordering::Relaxed);
             }
         }
         "codec" => codec::main(&args[2..]),
